@@ -147,4 +147,20 @@ CLAIMS["C06"] = {
   "technique": "Coq proof (class-level refinement of one specification by all three templates; nested corollary of the round-trip theorem) + differential correspondence + pairwise oracle",
   "design_ref": "DESIGN.md 5/C06"}
 
+CLAIMS["C05"] = {
+  "text": "Props/C05.v over the exception trees Model/Conv.v builds and Model/ConvErr.v's transform_error ([paths]); no hypothesis on the payload, so every number and placement of faults is covered. "
+          "C05_sequence_group_is_exact: the iterable-level group of a collection holds EXACTLY one entry per element whose hook failed (that element's own error, annotated with its index, in order) "
+          "and nothing for succeeding elements; C05_tuple_group_is_exact / C05_mapping_group_is_exact: the same for heterogeneous tuples and mappings (note = the entry's key); "
+          "C05_class_group_is_exact: for any class, options, overrides, handlers and dict payload the class-level group holds exactly the attempted attributes whose handler or key lookup failed "
+          "(note = attribute name, attribute order) followed by at most one un-annotated ForbiddenExtraKeysError naming exactly the unknown keys; C05_transform_is_compositional + C05_sequence_paths: "
+          "transform_error is total and reports a leaf at its own path and, for a group, the paths of its annotated children below .name / [index] in order, then the un-annotated entries at its own "
+          "path -- so the reported paths are exactly the failing components, at every depth. Tie: CONV/ERR lane -- the exception tree (group kinds, class ids, notes, order) and the transform_error "
+          "paths of the implementation equal the model's on every faulted payload -- plus the direct oracle: inject k independent faults into a valid payload, demand exactly the k fault paths, "
+          "class-level groups at class / TypedDict positions, iterable-level at collections, every note carrying the name / index / key and the declared type.",
+  "note": TB_CONV + " The global statement ('exactly the k fault paths') is the composition of the per-loop exactness theorems with the equations of [paths]; it is not packaged as one theorem over a "
+          "fault-injection relation. Leaf exception CLASSES and message texts are not modelled (format_exception); TypedDict positions are decided by the oracle only; set / frozenset / deque loops "
+          "have the same shape as the sequence loop but no separate theorem.",
+  "technique": "Coq proof (exact characterisation of every error-collecting loop + compositional transform_error) + differential correspondence of exception trees + fault-injection oracle",
+  "design_ref": "DESIGN.md 5/C05"}
+
 NOT_APPLICABLE = {}
